@@ -91,24 +91,55 @@ def _load_corpus(pid):
     return out
 
 
-def _with_deadline(fn, arg, seconds):
-    """call fn(arg) under a wall-clock deadline: a changed tree that loops forever on a valid input must end
-    as a failing input with a replay, not hang the check.  Property modules with their own, tighter watchdog
-    (C06, C17, C19) arm the same timer inside; this outer one is generous."""
-    import signal
-    import threading
-    if not seconds or threading.current_thread() is not threading.main_thread():
-        return fn(arg)
+class cpu_deadline:
+    """context manager: raise TimeoutError once the PROCESS has consumed `seconds` of CPU time inside the block
+    (ITIMER_PROF: user + system time of all threads), with a wall-clock backstop at `wall_factor` x seconds.
+    A changed tree that loops forever on a valid input must end as a failing input with a replay, not hang the
+    check - but a deadline measured on the wall clock turns machine load into false alarms (seen: quick checks of
+    C06/C19 run next to twenty other jobs), so the budget is CPU time; the wall backstop only catches a blocked
+    (sleeping) call.  Only armed in the main thread; nests (inner timers are restored on exit)."""
 
-    def on_alarm(sig, frm):
-        raise TimeoutError(f"implementation did not return within {seconds} s")
-    old = signal.signal(signal.SIGALRM, on_alarm)
-    signal.setitimer(signal.ITIMER_REAL, seconds)
-    try:
+    def __init__(self, seconds, wall_factor=30, what="implementation"):
+        self.seconds, self.wall, self.what = seconds, (seconds or 0) * wall_factor, what
+
+    def __enter__(self):
+        import signal
+        import threading
+        self.armed = bool(self.seconds) and threading.current_thread() is threading.main_thread()
+        if not self.armed:
+            return self
+
+        def on_cpu(sig, frm):
+            raise TimeoutError(f"{self.what} did not return within {self.seconds} s of CPU time")
+
+        def on_wall(sig, frm):
+            raise TimeoutError(f"{self.what} did not return within {self.wall} s (wall clock)")
+        self.old_prof = signal.signal(signal.SIGPROF, on_cpu)
+        self.old_alrm = signal.signal(signal.SIGALRM, on_wall)
+        self.prev_prof = signal.setitimer(signal.ITIMER_PROF, self.seconds)
+        self.prev_real = signal.setitimer(signal.ITIMER_REAL, self.wall)
+        return self
+
+    def __exit__(self, *a):
+        import signal
+        if self.armed:
+            signal.setitimer(signal.ITIMER_PROF, 0)
+            signal.setitimer(signal.ITIMER_REAL, 0)
+            signal.signal(signal.SIGPROF, self.old_prof)
+            signal.signal(signal.SIGALRM, self.old_alrm)
+            # re-arm an enclosing deadline with what it had left (approximately: its remaining value at entry)
+            if self.prev_prof[0] > 0:
+                signal.setitimer(signal.ITIMER_PROF, self.prev_prof[0])
+            if self.prev_real[0] > 0:
+                signal.setitimer(signal.ITIMER_REAL, self.prev_real[0])
+        return False
+
+
+def _with_deadline(fn, arg, seconds):
+    """call fn(arg) under the generous outer CPU-time deadline (property modules with their own, tighter watchdog
+    - C06, C17, C19 - arm an inner one)."""
+    with cpu_deadline(seconds):
         return fn(arg)
-    finally:
-        signal.setitimer(signal.ITIMER_REAL, 0)
-        signal.signal(signal.SIGALRM, old)
 
 
 def evaluate(prop, cases):
